@@ -1,7 +1,8 @@
 # C17: stage list (what ./check C17 quick|thorough runs) and manifest text. Helpers gen()/enum()/hyp()/custom() come from props.py.
 SPEC = {'level': 'exploration',
  'assumptions': ['on-disk BlockManager with the -fastprune file sizes (64 KiB block files; a larger block gets its own file), no pruning: prune + re-download of the '
-                 'design entry is not covered',
+                 'design entry is not covered; 35% of the cases use on-disk block-tree/coins DBs and restart the node cleanly (flush, new node on a copy of the datadir) up to twice, '
+                 'with every block and undo record re-read after the restart and after the writes that follow',
                  'faults are applied to the raw blk/rev files (below the XOR layer); the harness de-obfuscates with the key read from blocks/xor.dat itself',
                  'a length field changed to a value <= MAX_SIZE, and changed transaction bytes, may still yield a successful ReadBlock as long as the block hashes to the '
                  'indexed hash (ReadBlock does not re-check the merkle root; the connect clause is checked separately); ReadRawBlock is only required to fail on '
@@ -11,11 +12,11 @@ SPEC = {'level': 'exploration',
  'stages': [{'kind': 'gen',
              'binary': 'vh_c17',
              'target': 'c17_blockstore',
-             'cases_quick': 700,
+             'cases_quick': 450,
              'cases_thorough': 16000,
-             'min_cases_quick': 200,
+             'min_cases_quick': 150,
              'floors': {'multi-file': 0.3, 'reorg': 0.15, 'fault-magic': 0.08, 'fault-length': 0.08, 'fault-header': 0.08, 'fault-tx': 0.08,
-                        'fault-undo-body': 0.05, 'fault-undo-checksum': 0.05, 'fault-truncate': 0.05, 'corrupt-fork-not-connected': 0.05},
+                        'fault-undo-body': 0.05, 'fault-undo-checksum': 0.05, 'fault-truncate': 0.05, 'corrupt-fork-not-connected': 0.05, 'restart': 0.15, 'undo-written-after-restart': 0.12, 'precious-reorg': 0.05, 'flush': 0.15},
              'rule': 'block/undo write histories + raw-file faults; non-trivial = records in >=2 block files + undo written after a reorg + >=2 fault regions hit'},
             # regression-only stage (no generated cases): replays corpus/C17/c17_probe_cbwitness/* = the known finding c17.corrupt-cbwitness-connected
             gen('vh_c17', 'c17_probe_cbwitness', 0, 0, tiers=(),
